@@ -45,7 +45,7 @@ PLAN = {
         unit("sys", "TestC08Sys", 3, 20, replay="TestReplayC08Sys", seed_off=950, shrinktime="30s", workers={"quick": 8, "thorough": 16})]},
     "C09": {"level": "fault_enumeration", "units": [
         unit("side", "TestC09RoundTrip", 300, 4000, replay="TestReplayC09"),
-        unit("side", "TestC09Torn", 12, 150, shrinktime="30s", seed_off=300),
+        unit("side", "TestC09Torn", 12, 60, shrinktime="30s", seed_off=300),
         unit("side", "TestC09Kill", 8, 120, shrinktime="30s", seed_off=800),
         unit("side", "TestC09OldFile", 150, 2000, seed_off=600),
         unit("sys", "TestC09Sys", 3, 20, replay="TestReplayC09Sys", seed_off=950, shrinktime="30s", workers={"quick": 8, "thorough": 16})]},
